@@ -115,3 +115,24 @@ func (x *Pointer[T]) CompareAndSwap(o, n *T) bool {
 	pt("atomic.cas")
 	return x.v.CompareAndSwap(o, n)
 }
+
+type Uintptr struct{ v ratomic.Uintptr }
+
+func (x *Uintptr) Load() uintptr          { pt("atomic.load"); return x.v.Load() }
+func (x *Uintptr) Store(v uintptr)        { pt("atomic.store"); x.v.Store(v) }
+func (x *Uintptr) Add(d uintptr) uintptr  { pt("atomic.add"); return x.v.Add(d) }
+func (x *Uintptr) Swap(v uintptr) uintptr { pt("atomic.swap"); return x.v.Swap(v) }
+func (x *Uintptr) CompareAndSwap(o, n uintptr) bool {
+	pt("atomic.cas")
+	return x.v.CompareAndSwap(o, n)
+}
+
+func (x *Uint32) And(m uint32) uint32 { pt("atomic.and"); return x.v.And(m) }
+func (x *Uint32) Or(m uint32) uint32  { pt("atomic.or"); return x.v.Or(m) }
+func (x *Uint64) And(m uint64) uint64 { pt("atomic.and"); return x.v.And(m) }
+func (x *Uint64) Or(m uint64) uint64  { pt("atomic.or"); return x.v.Or(m) }
+
+func SwapUint32(addr *uint32, n uint32) uint32 { pt("atomic.swap"); return ratomic.SwapUint32(addr, n) }
+func SwapUint64(addr *uint64, n uint64) uint64 { pt("atomic.swap"); return ratomic.SwapUint64(addr, n) }
+func SwapInt32(addr *int32, n int32) int32     { pt("atomic.swap"); return ratomic.SwapInt32(addr, n) }
+func SwapInt64(addr *int64, n int64) int64     { pt("atomic.swap"); return ratomic.SwapInt64(addr, n) }
